@@ -277,10 +277,17 @@ def e2_main(tier: str, out: str) -> int:
     ldr = _LOAD.loader('')
     table = ldr.yaml_implicit_resolvers
     stock_table = yaml.SafeLoader.yaml_implicit_resolvers
-    Rl = ResolverModel(table, s)
-    Rs = ResolverModel(stock_table, s)
     result = {'queries': [], 'validation': {}, 'violations': [],
               'harness_errors': []}
+    try:
+        Rl = ResolverModel(table, s)
+        Rs = ResolverModel(stock_table, s)
+    except smtre.Untranslatable as e:
+        # a pattern outside the translator's fragment: E2 cannot decide; the
+        # bounded E1 conditions still run
+        result['untranslatable'] = str(e)
+        json.dump(result, open(out, 'w'), indent=1)
+        return 0
 
     # ---- translator / encoding validation on the corpus
     nval = 0
